@@ -337,6 +337,314 @@ Proof using u_range n_small fadd_ok fsub_ok fmul_ok fadd_0_mul fsqrt_ok NA_nonne
   rewrite <- (Herr e eq_refl). exact HP.
 Qed.
 
+(* ---------------------------------------------------------------- the invariant counted in UPDATES (for the other solvers) *)
+Definition dr (j : nat) (G W : R) : Prop := (1 - rho) ^ (j + 1) * G <= (4 * INR j + 1) * W.
+
+Lemma drift_post_dr b k x g :
+  drift_post b k x g <-> len x = n /\ len (g_t g) = n /\ dr k (gap b x (g_t g)) (Wd b (t_X (g_X g))).
+Proof. unfold drift_post, dr. tauto. Qed.
+
+Lemma dr_step j G G' W W' :
+  dr j G W -> (1 - rho) * G' <= G + 4 * W' -> W <= W' -> 0 <= W' -> dr (S j) G' W'.
+Proof using u_range n_small.
+  unfold dr. intros H Hs HW HW'.
+  replace (S j + 1)%nat with (S (S j)) by lia.
+  replace (4 * INR (S j) + 1) with (4 * INR (S (S j)) - 3) by (rewrite !S_INR; ring).
+  apply (drift_algebra (S j) G G' W W' rho); auto using (rho_range u u_half); [lia|].
+  replace (S j) with (j + 1)%nat by lia.
+  replace (4 * INR (j + 1) - 3) with (4 * INR j + 1) by (rewrite plus_INR; cbn [INR]; ring). exact H.
+Qed.
+
+Lemma dr_weaken j G W : 0 <= G -> 0 <= W -> dr j G W -> dr (S j) G W.
+Proof using u_range n_small.
+  unfold dr. intros HG HW H. pose proof (rho_range u u_half) as Rr.
+  replace (S j + 1)%nat with (S (j + 1)) by lia. cbn [pow]. rewrite S_INR.
+  assert (P : 0 < (1 - rho) ^ (j + 1)) by (apply pow_lt; lra). pose proof (pos_INR j).
+  assert (0 <= (1 - rho) ^ (j + 1) * G) by nra.
+  assert ((1 - rho) * ((1 - rho) ^ (j + 1) * G) <= (1 - rho) ^ (j + 1) * G) by nra.
+  nra.
+Qed.
+
+Lemma gap_nonneg b x r : 0 <= gap b x r.
+Proof. apply N2_nonneg. Qed.
+
+(* one update, in the counted form *)
+Lemma update_dr j (b x r p q uu w : list R) (alpha tX tX' : R) :
+  len x = n -> len r = n -> len p = n -> len uu = n -> len w = n ->
+  mulA p = Ok q ->
+  (forall k, (k < n)%nat -> exists d, Rabs d <= u /\ vf uu k = alpha * vf p k * (1 + d)) ->
+  (forall k, (k < n)%nat -> exists d, Rabs d <= u /\ vf w k = alpha * vf q k * (1 + d)) ->
+  tX <= tX' -> norm2 (A := SAm) uu <= tX' -> norm2 (A := SAm) (zipw (A := SAm) fadd x uu) <= tX' ->
+  dr j (gap b x r) (Wd b tX) ->
+  dr (S j) (gap b (zipw (A := SAm) fadd x uu) (zipw (A := SAm) fsub r w)) (Wd b tX').
+Proof using u_range n_small fadd_ok fsub_ok fmul_ok fadd_0_mul fsqrt_ok NA_nonneg eA_nonneg NA_ok MV.
+  intros Lx Lr Lp Lu Lw Eq Hu Hw Ht HXu HXx H.
+  apply (dr_step j (gap b x r) _ (Wd b tX) (Wd b tX') H).
+  - apply (update_drift b x r p q uu w alpha tX'); assumption.
+  - apply Wd_mono. exact Ht.
+  - apply Wd_nonneg. destruct (norm2_bounds uu Lu) as (P & _). lra.
+Qed.
+
+Variable mulAT : list R -> res (list R).
+
+(* ---------------------------------------------------------------- BiCG *)
+Definition bi_I (b : list R) (i : nat) (s : bicg_st (A := SAm)) : Prop :=
+  (1 <= i)%nat /\ len (bi_x s) = n /\ len (bi_r s) = n /\ len (bi_rr s) = n /\ len (bi_z s) = n /\
+  len (bi_zz s) = n /\ len (bi_p s) = n /\ len (bi_pp s) = n /\ bi_z s = bi_r s /\
+  dr (i - 1) (gap b (bi_x s) (bi_r s)) (Wd b (t_X (bi_X s))).
+
+Lemma bicg_body_drift b itol tol bnrm i s out :
+  bi_I b i s -> bicg_body (A := SAm) mulA mulAT n itol tol bnrm i s = Ok out ->
+  match out with
+  | Continue s' => bi_I b (S i) s'
+  | Return (res, x, g) => res = IOk i /\ drift_post b i x g
+  end.
+Proof using u_range n_small fadd_ok fsub_ok fmul_ok fadd_0_mul fsqrt_ok NA_nonneg eA_nonneg NA_ok MV.
+  intros (Hi & Lx & Lr & Lrr & Lz & Lzz & Lp & Lpp & Ezr & HG) H. unfold bicg_body in H.
+  apply bind_ok in H as (zz & Ez & H). apply (ident_pre_Ok (A := SAm)) in Ez as (-> & _); [|exact Lzz].
+  apply bind_ok in H as (rho1 & _ & H).
+  apply bind_ok in H as (ppp & Ep & H). destruct ppp as (p, pp).
+  assert (Lp' : len p = n /\ len pp = n).
+  { destruct (i =? 1)%nat.
+    - injection Ep as <- <-. split; assumption.
+    - apply bind_ok in Ep as (beta & _ & Ep). apply bind_ok in Ep as (p1 & Ep1 & Ep). apply bind_ok in Ep as (pp1 & Epp1 & Ep).
+      injection Ep as <- <-.
+      apply (vadd_Ok (A := SAm)) in Ep1 as (_ & ->). apply (vadd_Ok (A := SAm)) in Epp1 as (_ & ->).
+      split; apply zipw_len; auto using vscale_len. }
+  destruct Lp' as (Lp' & Lpp').
+  apply bind_ok in H as (z0 & Eq & H). apply bind_ok in H as (zpp & _ & H). apply bind_ok in H as (alpha & _ & H).
+  apply bind_ok in H as (zz' & _ & H). cbv zeta in H.
+  apply bind_ok in H as (x' & Ex & H). apply (vadd_Ok (A := SAm)) in Ex as (Lxu & ->).
+  apply bind_ok in H as (r' & Er & H). apply (vsub_Ok (A := SAm)) in Er as (Lrw & ->).
+  apply bind_ok in H as (rr' & Err & H). apply (vsub_Ok (A := SAm)) in Err as (Lrrw & ->).
+  set (uu := vscale (A := SAm) p alpha) in *. set (w := vscale (A := SAm) z0 alpha) in *.
+  assert (Lu : len uu = n) by (unfold uu; apply vscale_len; exact Lp').
+  assert (Lw : len w = n) by (change (len (bi_r s) = len w) in Lrw; lia).
+  assert (Lq : len z0 = n) by (unfold w, vscale in Lw; rewrite map_length in Lw; exact Lw).
+  assert (Lzz' : len zz' = n).
+  { change (len (bi_rr s) = len (vscale (A := SAm) zz' alpha)) in Lrrw. unfold vscale in Lrrw.
+    rewrite map_length in Lrrw. change (len (bi_rr s) = len zz') in Lrrw. lia. }
+  apply bind_ok in H as (z & Ezn & H). apply (ident_pre_Ok (A := SAm)) in Ezn as (-> & _); [|exact Lq].
+  apply bind_ok in H as (err1 & _ & H). apply bind_ok in H as (err & _ & H).
+  set (x' := zipw (A := SAm) (@add SAm) (bi_x s) uu) in *.
+  set (r' := zipw (A := SAm) (@sub SAm) (bi_r s) w) in *.
+  set (tX' := tmax (A := SAm) (tmax (A := SAm) (t_X (bi_X s)) (norm2 (A := SAm) uu)) (norm2 (A := SAm) x')).
+  destruct (tmax_ge (t_X (bi_X s)) (norm2 (A := SAm) uu)) as (M1 & M2).
+  destruct (tmax_ge (tmax (A := SAm) (t_X (bi_X s)) (norm2 (A := SAm) uu)) (norm2 (A := SAm) x')) as (M3 & M4).
+  fold tX' in M3, M4.
+  assert (Hnew : dr (S (i - 1)) (gap b x' r') (Wd b tX')).
+  { apply (update_dr (i - 1) b (bi_x s) (bi_r s) p z0 uu w alpha (t_X (bi_X s)) tX'); auto; try lra.
+    - intros k Hk. apply scaled_r. lia.
+    - intros k Hk. apply scaled_r. lia. }
+  replace (S (i - 1)) with i in Hnew by lia.
+  assert (Lx' : len x' = n) by (unfold x'; apply zipw_len; assumption).
+  assert (Lr' : len r' = n) by (unfold r'; apply zipw_len; assumption).
+  assert (Lrr' : len (zipw (A := SAm) (@sub SAm) (bi_rr s) (vscale (A := SAm) zz' alpha)) = n)
+    by (apply zipw_len; auto using vscale_len).
+  destruct (leb err tol); injection H as <-.
+  - split; [reflexivity|]. apply drift_post_dr. cbn [g_t g_X].
+    split; [exact Lx'|]. split; [destruct (itol =? 2)%nat; exact Lr'|].
+    destruct (itol =? 2)%nat; exact Hnew.
+  - unfold bi_I. cbn [bi_x bi_r bi_rr bi_z bi_zz bi_p bi_pp bi_X]. split; [lia|].
+    repeat split; auto. replace (S i - 1)%nat with i by lia. exact Hnew.
+Qed.
+
+Lemma bicg_start_inv itol cols (b x r z : list R) bnrm :
+  bicg_start (A := SAm) mulA n cols itol b x = Ok (r, bnrm, z) ->
+  len b = n /\ len x = n /\ exists ax, mulA x = Ok ax /\ r = zipw (A := SAm) fsub b ax /\ z = r.
+Proof.
+  unfold bicg_start. intros H.
+  apply bind_ok in H as (tt' & Eg & H). apply (guards_Ok (A := SAm)) in Eg as (Hb & Hc & Hx).
+  change (n = len b) in Hb. change (len b = len x) in Hx.
+  apply bind_ok in H as (ax & Eax & H). apply bind_ok in H as (r0 & Er & H).
+  apply (vsub_Ok (A := SAm)) in Er as (Lbax & ->). change (len b = len ax) in Lbax.
+  apply bind_ok in H as (bz & Ebz & H). injection H as <- <- <-.
+  split; [lia|]. split; [lia|]. exists ax. split; [exact Eax|]. split; [reflexivity|].
+  assert (Lr0 : len (zipw (A := SAm) (@sub SAm) b ax) = n) by (apply zipw_len; lia).
+  destruct (itol =? 1)%nat.
+  - cbv zeta in Ebz. apply bind_ok in Ebz as (z1 & Ez & Ebz).
+    apply (ident_pre_Ok (A := SAm)) in Ez as (-> & _); [|apply (zeros_length (A := SAm))].
+    injection Ebz as <-. reflexivity.
+  - destruct (itol =? 2)%nat; [|discriminate].
+    apply bind_ok in Ebz as (z1 & Ez & Ebz).
+    apply (ident_pre_Ok (A := SAm)) in Ez as (-> & Lb'); [|apply (zeros_length (A := SAm))].
+    cbv zeta in Ebz. apply bind_ok in Ebz as (z2 & Ez2 & Ebz).
+    apply (ident_pre_Ok (A := SAm)) in Ez2 as (-> & _); [|exact Lb'].
+    injection Ebz as <-. reflexivity.
+Qed.
+
+Theorem bicg_drift_lemma (b x0 : list R) cols itol max tol k x g :
+  solve_bicg (A := SAm) mulA mulAT n cols itol b x0 max tol = Ok (IOk k, x, g) ->
+  (k <= max)%nat /\ drift_post b k x g.
+Proof using u_range n_small fadd_ok fsub_ok fmul_ok fadd_0_mul fsqrt_ok NA_nonneg eA_nonneg NA_ok MV.
+  unfold solve_bicg. intros H.
+  apply bind_ok in H as (st & Est & H). destruct st as ((r, bnrm), z).
+  apply bicg_start_inv in Est as (Lb & Lx0 & ax & Eax & -> & ->).
+  cbv zeta in H. apply bind_ok in H as (err & _ & H).
+  set (r0 := zipw (A := SAm) fsub b ax) in *.
+  assert (Lax : len ax = n) by (destruct (MV x0 Lx0) as (ax' & E' & L' & _); rewrite Eax in E'; injection E' as <-; exact L').
+  assert (S0 : (1 - rho) * gap b x0 r0 <= Wd b (norm2 (A := SAm) x0)) by exact (first_drift b x0 ax Lx0 Eax Lb).
+  assert (Lr0 : len r0 = n) by (unfold r0; apply zipw_len; assumption).
+  assert (D0 : dr 0 (gap b x0 r0) (Wd b (norm2 (A := SAm) x0))) by (unfold dr; cbn [Nat.add pow INR]; lra).
+  destruct (leb err tol).
+  - injection H as <- <- <-. split; [lia|]. apply drift_post_dr. cbn [g_t g_X t_X trace0]. auto.
+  - set (s0 := mkBI (A := SAm) x0 r0 r0 r0 (zeros (A := SAm) n) (zeros (A := SAm) n) (zeros (A := SAm) n) (@one SAm) err
+                 (trace0 (A := SAm) x0 err tol)) in *.
+    assert (I0 : bi_I b 1 s0).
+    { unfold bi_I, s0. cbn [bi_x bi_r bi_rr bi_z bi_zz bi_p bi_pp bi_X t_X trace0]. split; [lia|].
+      rewrite !(zeros_length (A := SAm)). repeat split; auto. }
+    destruct (iloop_char (A := SAm) (bicg_body (A := SAm) mulA mulAT n itol tol (nz (A := SAm) bnrm)) (bicg_final (A := SAm) itol)
+                (bi_I b)
+                (fun i s s' HI Eb => bicg_body_drift b itol tol _ i s (Continue s') HI Eb)
+                max 1%nat s0 (IOk k, x, g) I0 H)
+      as [(i & s & Hi & HI & Eb)|(s & HI & Ef)].
+    + pose proof (bicg_body_drift b itol tol _ i s (Return (IOk k, x, g)) HI Eb) as (E & HP).
+      injection E as ->. split; [lia|exact HP].
+    + unfold bicg_final in Ef. discriminate Ef.
+Qed.
+
+(* ---------------------------------------------------------------- BiCGSTAB: two updates per iteration *)
+Definition st_I (b : list R) (i : nat) (s : stab_st (A := SAm)) : Prop :=
+  (1 <= i)%nat /\ len (st_x s) = n /\ len (st_r s) = n /\ len (st_phat s) = n /\ len (st_shat s) = n /\
+  0 <= t_X (st_X s) /\
+  dr (2 * (i - 1)) (gap b (st_x s) (st_r s)) (Wd b (t_X (st_X s))).
+
+Lemma stab_body_drift b rtilde tol normb i s out :
+  st_I b i s -> stab_body (A := SAm) mulA n rtilde tol normb i s = Ok out ->
+  match out with
+  | Continue s' => st_I b (S i) s'
+  | Return (res, x, g) => (forall k, res = IOk k -> k = i) /\ drift_post b (2 * i) x g
+  end.
+Proof using u_range n_small fadd_ok fsub_ok fmul_ok fadd_0_mul fsqrt_ok NA_nonneg eA_nonneg NA_ok MV.
+  intros (Hi & Lx & Lr & Lph & Lsh & PX & HG) H. unfold stab_body in H.
+  assert (HG2 : dr (2 * i) (gap b (st_x s) (st_r s)) (Wd b (t_X (st_X s)))).
+  { replace (2 * i)%nat with (S (S (2 * (i - 1)))) by lia.
+    apply dr_weaken; [apply gap_nonneg|apply Wd_nonneg; exact PX|].
+    apply dr_weaken; [apply gap_nonneg|apply Wd_nonneg; exact PX|exact HG]. }
+  apply bind_ok in H as (rho1 & _ & H).
+  destruct (eqb rho1 zero).
+  { apply bind_ok in H as (e & _ & H). injection H as <-. split; [discriminate|].
+    apply drift_post_dr. cbn [g_t g_X]. auto. }
+  apply bind_ok in H as (p & Ep & H).
+  assert (Lp : len p = n).
+  { destruct (i =? 1)%nat.
+    - injection Ep as <-. exact Lr.
+    - apply bind_ok in Ep as (q1 & _ & Ep). apply bind_ok in Ep as (q2 & _ & Ep). cbv zeta in Ep.
+      apply bind_ok in Ep as (w0 & _ & Ep). apply (vadd_Ok (A := SAm)) in Ep as (L & ->).
+      change (len (st_r s) = len (vscale_l (A := SAm) (@mul SAm q1 q2) w0)) in L.
+      apply zipw_len; [exact Lr|lia]. }
+  apply bind_ok in H as (phat & Eph & H). apply (ident_pre_Ok (A := SAm)) in Eph as (-> & _); [|exact Lph].
+  apply bind_ok in H as (v & Ev & H). apply bind_ok in H as (rv & _ & H). apply bind_ok in H as (alpha & _ & H).
+  apply bind_ok in H as (sv & Esv & H). apply (vsub_Ok (A := SAm)) in Esv as (Lsv & ->).
+  apply bind_ok in H as (resid & _ & H). cbv zeta in H.
+  set (w1 := vscale (A := SAm) v alpha) in *.
+  assert (Lw1 : len w1 = n) by (change (len (st_r s) = len w1) in Lsv; lia).
+  assert (Lv : len v = n) by (unfold w1, vscale in Lw1; rewrite map_length in Lw1; exact Lw1).
+  set (sv := zipw (A := SAm) (@sub SAm) (st_r s) w1) in *.
+  assert (Lsv' : len sv = n) by (unfold sv; apply zipw_len; assumption).
+  destruct (leb resid tol).
+  { (* the half-step exit: x + phat*alpha with residual sv *)
+    apply bind_ok in H as (x' & Ex & H). apply (vadd_Ok (A := SAm)) in Ex as (_ & ->). injection H as <-.
+    set (uu := vscale (A := SAm) p alpha) in *.
+    assert (Lu : len uu = n) by (unfold uu; apply vscale_len; exact Lp).
+    set (x' := zipw (A := SAm) (@add SAm) (st_x s) uu) in *.
+    set (tX' := tmax (A := SAm) (tmax (A := SAm) (t_X (st_X s)) (norm2 (A := SAm) uu)) (norm2 (A := SAm) x')).
+    destruct (tmax_ge (t_X (st_X s)) (norm2 (A := SAm) uu)) as (M1 & M2).
+    destruct (tmax_ge (tmax (A := SAm) (t_X (st_X s)) (norm2 (A := SAm) uu)) (norm2 (A := SAm) x')) as (M3 & M4).
+    fold tX' in M3, M4.
+    assert (Hnew : dr (S (2 * (i - 1))) (gap b x' sv) (Wd b tX')).
+    { apply (update_dr (2 * (i - 1)) b (st_x s) (st_r s) p v uu w1 alpha (t_X (st_X s)) tX'); auto; try lra.
+      - intros k Hk. apply scaled_r. lia.
+      - intros k Hk. apply scaled_r. lia. }
+    assert (Lx' : len x' = n) by (unfold x'; apply zipw_len; assumption).
+    split; [intros k E; injection E as <-; reflexivity|].
+    apply drift_post_dr. cbn [g_t g_X]. split; [exact Lx'|]. split; [exact Lsv'|].
+    replace (2 * i)%nat with (S (S (2 * (i - 1)))) by lia.
+    apply dr_weaken; [apply gap_nonneg|apply Wd_nonneg; change (0 <= tX'); lra|exact Hnew]. }
+  apply bind_ok in H as (shat & Esh & H). apply (ident_pre_Ok (A := SAm)) in Esh as (-> & _); [|exact Lsh].
+  apply bind_ok in H as (t & Et & H). apply bind_ok in H as (ts & _ & H). apply bind_ok in H as (tdt & _ & H).
+  apply bind_ok in H as (omega & _ & H). cbv zeta in H.
+  apply bind_ok in H as (x1 & Ex1 & H). apply (vadd_Ok (A := SAm)) in Ex1 as (_ & ->).
+  apply bind_ok in H as (x2 & Ex2 & H). apply (vadd_Ok (A := SAm)) in Ex2 as (_ & ->).
+  apply bind_ok in H as (r2 & Er2 & H). apply (vsub_Ok (A := SAm)) in Er2 as (Lr2 & ->).
+  apply bind_ok in H as (resid2 & _ & H).
+  set (u1 := vscale_l (A := SAm) alpha p) in *.
+  assert (Lu1 : len u1 = n) by (unfold u1; apply vscale_l_len; exact Lp).
+  set (x1 := zipw (A := SAm) (@add SAm) (st_x s) u1) in *.
+  assert (Lx1 : len x1 = n) by (unfold x1; apply zipw_len; assumption).
+  set (u2 := vscale_l (A := SAm) omega sv) in *.
+  assert (Lu2 : len u2 = n) by (unfold u2; apply vscale_l_len; exact Lsv').
+  set (x2 := zipw (A := SAm) (@add SAm) x1 u2) in *.
+  assert (Lx2 : len x2 = n) by (unfold x2; apply zipw_len; assumption).
+  set (w2 := vscale (A := SAm) t omega) in *.
+  assert (Lw2 : len w2 = n) by (change (len sv = len w2) in Lr2; lia).
+  assert (Lt : len t = n) by (unfold w2, vscale in Lw2; rewrite map_length in Lw2; exact Lw2).
+  set (r2 := zipw (A := SAm) (@sub SAm) sv w2) in *.
+  assert (Lr2' : len r2 = n) by (unfold r2; apply zipw_len; assumption).
+  set (tX1 := tmax (A := SAm) (tmax (A := SAm) (t_X (st_X s)) (norm2 (A := SAm) u1)) (norm2 (A := SAm) x1)).
+  set (tX2 := tmax (A := SAm) (tmax (A := SAm) tX1 (norm2 (A := SAm) u2)) (norm2 (A := SAm) x2)).
+  destruct (tmax_ge (t_X (st_X s)) (norm2 (A := SAm) u1)) as (M1 & M2).
+  destruct (tmax_ge (tmax (A := SAm) (t_X (st_X s)) (norm2 (A := SAm) u1)) (norm2 (A := SAm) x1)) as (M3 & M4).
+  fold tX1 in M3, M4.
+  destruct (tmax_ge tX1 (norm2 (A := SAm) u2)) as (M5 & M6).
+  destruct (tmax_ge (tmax (A := SAm) tX1 (norm2 (A := SAm) u2)) (norm2 (A := SAm) x2)) as (M7 & M8).
+  fold tX2 in M7, M8.
+  assert (H1 : dr (S (2 * (i - 1))) (gap b x1 sv) (Wd b tX1)).
+  { apply (update_dr (2 * (i - 1)) b (st_x s) (st_r s) p v u1 w1 alpha (t_X (st_X s)) tX1); auto; try lra.
+    - intros k Hk. apply scaled_l. lia.
+    - intros k Hk. apply scaled_r. lia. }
+  assert (H2 : dr (S (S (2 * (i - 1)))) (gap b x2 r2) (Wd b tX2)).
+  { apply (update_dr (S (2 * (i - 1))) b x1 sv sv t u2 w2 omega tX1 tX2); auto; try lra.
+    - intros k Hk. apply scaled_l. lia.
+    - intros k Hk. apply scaled_r. lia. }
+  replace (S (S (2 * (i - 1)))) with (2 * i)%nat in H2 by lia.
+  destruct (norm2_bounds x2 Lx2) as (Px2 & _ & _).
+  destruct (ltb resid2 tol).
+  { injection H as <-. split; [intros k E; injection E as <-; reflexivity|].
+    apply drift_post_dr. cbn [g_t g_X]. auto. }
+  destruct (eqb omega zero).
+  { injection H as <-. split; [discriminate|]. apply drift_post_dr. cbn [g_t g_X]. auto. }
+  injection H as <-. unfold st_I. cbn [st_x st_r st_phat st_shat st_X]. split; [lia|].
+  split; [exact Lx2|]. split; [exact Lr2'|]. split; [exact Lp|]. split; [exact Lsv'|].
+  split; [change (0 <= tX2); lra|].
+  replace (2 * (S i - 1))%nat with (2 * i)%nat by lia. exact H2.
+Qed.
+
+Theorem bicgstab_drift_lemma (b x0 : list R) cols max tol k x g :
+  solve_bicgstab (A := SAm) mulA n cols b x0 max tol = Ok (IOk k, x, g) ->
+  (k <= max)%nat /\ drift_post b (2 * k) x g.
+Proof using u_range n_small fadd_ok fsub_ok fmul_ok fadd_0_mul fsqrt_ok NA_nonneg eA_nonneg NA_ok MV.
+  unfold solve_bicgstab. intros H.
+  apply bind_ok in H as (tt' & Eg & H). apply (guards_Ok (A := SAm)) in Eg as (Hb & Hc & Hx).
+  cbv zeta in H.
+  apply bind_ok in H as (ax & Eax & H). apply bind_ok in H as (r & Er & H).
+  apply (vsub_Ok (A := SAm)) in Er as (Lbax & ->).
+  apply bind_ok in H as (resid & Eres & H).
+  change (n = len b) in Hb. change (len b = len x0) in Hx.
+  assert (Lx0 : len x0 = n) by lia. assert (Lb : len b = n) by lia.
+  change (len b = len ax) in Lbax. assert (Lax : len ax = n) by lia.
+  set (r0 := zipw (A := SAm) (@sub SAm) b ax) in *.
+  assert (S0 : (1 - rho) * gap b x0 r0 <= Wd b (norm2 (A := SAm) x0)) by exact (first_drift b x0 ax Lx0 Eax Lb).
+  assert (Lr0 : len r0 = n) by (unfold r0; apply zipw_len; assumption).
+  assert (D0 : dr 0 (gap b x0 r0) (Wd b (norm2 (A := SAm) x0))) by (unfold dr; cbn [Nat.add pow INR]; lra).
+  destruct (norm2_bounds x0 Lx0) as (P0 & _ & _).
+  destruct (leb resid tol).
+  - injection H as <- <- <-. split; [lia|]. apply drift_post_dr. cbn [g_t g_X t_X trace0 Nat.mul]. auto.
+  - set (s0 := mkST (A := SAm) x0 r0 (zeros (A := SAm) n) (zeros (A := SAm) n) (zeros (A := SAm) n) (zeros (A := SAm) n)
+                 (@one SAm) (@one SAm) (@one SAm) resid (trace0 (A := SAm) x0 resid tol)) in *.
+    assert (I0 : st_I b 1 s0).
+    { unfold st_I, s0. cbn [st_x st_r st_phat st_shat st_X t_X trace0]. split; [lia|].
+      rewrite !(zeros_length (A := SAm)). repeat split; auto. }
+    destruct (iloop_char (A := SAm) (stab_body (A := SAm) mulA n r0 tol (nz (A := SAm) (norm2 (A := SAm) b))) (stab_final (A := SAm))
+                (st_I b)
+                (fun i s s' HI Eb => stab_body_drift b r0 tol _ i s (Continue s') HI Eb)
+                max 1%nat s0 (IOk k, x, g) I0 H)
+      as [(i & s & Hi & HI & Eb)|(s & HI & Ef)].
+    + pose proof (stab_body_drift b r0 tol _ i s (Return (IOk k, x, g)) HI Eb) as (E & HP).
+      rewrite (E k eq_refl). split; [lia|exact HP].
+    + unfold stab_final in Ef. discriminate Ef.
+Qed.
+
 (* ---------------------------------------------------------------- Ok means solved, with the drift *)
 Definition nzR (y : R) : R := if Req_EM_T y 0 then 1 else y.
 
@@ -422,6 +730,46 @@ Proof using u_range n_small fadd_ok fsub_ok fmul_ok fdiv_ok fadd_0_mul fsqrt_ok 
     change (n = len b) in Hb. lia. }
   apply (solved_from_post b tol k x g Lb HP).
   exact (proj2 (run_ok_inv (A := SAm) mulA mulA n cols CG b x0 max tol k x g H)).
+Qed.
+
+(* ---------------------------------------------------------------- one statement for CG, BiCG, BiCGSTAB *)
+Definition updates (sv : solver) (k : nat) : nat := match sv with BiCGSTAB => (2 * k)%nat | _ => k end.
+
+Theorem run_drift_lemma sv (b x0 : list R) cols max tol k x g :
+  sv <> QMR -> run (A := SAm) mulA mulAT n cols sv b x0 max tol = Ok (IOk k, x, g) ->
+  (k <= max)%nat /\ drift_post b (updates sv k) x g.
+Proof using u_range n_small fadd_ok fsub_ok fmul_ok fadd_0_mul fsqrt_ok NA_nonneg eA_nonneg NA_ok MV.
+  intros Hq H. destruct sv as [|itol| |]; cbn [run updates] in *.
+  - exact (cg_drift_lemma b x0 cols max tol k x g H).
+  - exact (bicg_drift_lemma b x0 cols itol max tol k x g H).
+  - exact (bicgstab_drift_lemma b x0 cols max tol k x g H).
+  - congruence.
+Qed.
+
+Lemma run_len_b sv (b x0 : list R) cols max tol o :
+  run (A := SAm) mulA mulAT n cols sv b x0 max tol = Ok o -> len b = n.
+Proof.
+  intros H.
+  assert (G : exists t, guards (A := SAm) n cols b x0 = Ok t).
+  { destruct sv as [|itol| |]; cbn [run] in H.
+    - unfold solve_cg in H. apply bind_ok in H as (t & E & _). now exists t.
+    - unfold solve_bicg in H. apply bind_ok in H as (st & E & _). unfold bicg_start in E.
+      apply bind_ok in E as (t & E & _). now exists t.
+    - unfold solve_bicgstab in H. apply bind_ok in H as (t & E & _). now exists t.
+    - unfold solve_qmr in H. apply bind_ok in H as (t & E & _). now exists t. }
+  destruct G as (t & E). apply (guards_Ok (A := SAm)) in E as (Hb & _). change (n = len b) in Hb. lia.
+Qed.
+
+Theorem run_ok_means_solved_rounded_lemma sv (b x0 : list R) cols max tol k x g :
+  sv <> QMR -> run (A := SAm) mulA mulAT n cols sv b x0 max tol = Ok (IOk k, x, g) ->
+  (k <= max)%nat /\
+  N2 n (fun i => vf b i - Ax n a (vf x) i)
+    <= tol * (kap * (1 + rho) * (1 + gN)) * nzR (N2 n (vf b))
+       + (4 * INR (updates sv k) + 1) * Wd b (t_X (g_X g)) / (1 - rho) ^ (updates sv k + 1).
+Proof using u_range n_small fadd_ok fsub_ok fmul_ok fdiv_ok fadd_0_mul fsqrt_ok NA_nonneg eA_nonneg NA_ok MV.
+  intros Hq H. destruct (run_drift_lemma sv b x0 cols max tol k x g Hq H) as (Hk & HP). split; [exact Hk|].
+  apply (solved_from_post b tol (updates sv k) x g (run_len_b sv b x0 cols max tol _ H) HP).
+  exact (proj2 (run_ok_inv (A := SAm) mulA mulAT n cols sv b x0 max tol k x g H)).
 Qed.
 
 End Drift.
